@@ -357,6 +357,13 @@ impl<Hash: NewBytes + ResizableBytes + Zeroize, Salt: NewBytes + ResizableBytes 
 impl<Hash: NewBytes + ResizableBytes + Zeroize, Salt: Bytes + Clone + Zeroize> PwHash<Hash, Salt> {
     /// Verifies that this hash, salt, and config is valid for `password`.
     pub fn verify<Password: Bytes>(&self, password: &Password) -> Result<(), Error> {
+        if self.hash.as_slice().len() != self.config.hash_length {
+            // the hash computed below has `config.hash_length` bytes, so it
+            // could never match; a deserialized record can carry any number
+            // here, which must not be used to size a buffer
+            return Err(dryoc_error!("hashes do not match"));
+        }
+
         let computed = Self::hash_with_salt(password, self.salt.clone(), self.config.clone())?;
 
         if self
